@@ -15,7 +15,7 @@ Your task: produce TWO independent source changes ("mutation A" and "mutation B"
   2. still compiles, and
   3. still passes the existing test suite unchanged: `cd {WT} && cargo test --workspace --no-fail-fast --offline` (94 unit tests + doctests) must pass with the change applied.
 
-This is a SEVENTH round. The following ideas were already used for this property in earlier rounds; do NOT repeat them or variants of them, and choose code sites (functions) that none of them touches whenever possible:
+This is a EIGHTH round. The following ideas were already used for this property in earlier rounds; do NOT repeat them or variants of them, and choose code sites (functions) that none of them touches whenever possible:
 {USED}
 
 Mutation A should be the SUBTLEST change you can devise inside the code that directly implements this property. Mutation B should be a change at a site that seems to belong to a DIFFERENT concern (a helper, a shared data structure, a dependency wrapper, another crate of the workspace, a conversion, an error path, the order of two initialisations, a default value, a feature-gated alternative implementation) but that nonetheless breaks THIS property for some rare input. For both: the bug must be real, but it should manifest only under a narrow, specific condition that ordinary use and randomized testing with small or medium-sized random inputs would rarely or never hit. Ideas for trigger conditions: exact equality of two quantities that are usually different (scores, lengths, counts, window sizes, byte and character counts); the first or last element only; an element that appears exactly twice; a value that is zero only after quantisation or only after a sum cancels; sequences of three or more API calls in an unusual order; reuse of an object after an error; text whose characters change type or byte width under normalisation; specific positions (index 0, index len-1, a multiple of some block size); very large OR degenerate (empty / single) collections in exactly one dimension; a rarely used public entry point; a non-default cargo feature set; an I/O object with unusual but legal behaviour. The change should still look like a plausible programmer mistake or "optimisation" in a code review. Do not just delete functionality wholesale, do not add randomness or time dependence, and do not edit tests.
@@ -32,7 +32,7 @@ When you are done leave the worktree's tracked source files UNMODIFIED (git chec
 for i in range(1,21):
     pid='C%02d'%i
     used=[]
-    for m in ['A','B','A2','B2','A3','B3','A4','B4','A5','B5','A6','B6']:
+    for m in ['A','B','A2','B2','A3','B3','A4','B4','A5','B5','A6','B6','A7','B7']:
         rd='/verif/seeded/%s-%s/AGENT_README.md'%(pid,m)
         pd='/verif/seeded/%s-%s/patch.diff'%(pid,m)
         files=sorted(set(re.findall(r'^\+\+\+ b/(.*)$', open(pd).read(), re.M)))
@@ -41,5 +41,5 @@ for i in range(1,21):
         body=' '.join(l for l in txt.splitlines()[1:] if l.strip() and not l.startswith('#') and not l.startswith('```'))
         used.append('  - (%s) %s. %s' % (', '.join(files), title, ' '.join(body.split())[:200]))
     prop={k:props[pid][k] for k in ('id','title','statement','quantifier','why_tests_cant','anchors')}
-    open('/tmp/wt7/%s.prompt.txt'%pid,'w').write(base.replace('{WT}','/tmp/wt7/'+pid).replace('{PROPERTY}',json.dumps(prop,ensure_ascii=False,indent=1)).replace('{USED}','\n'.join(used)))
-print(len(open('/tmp/wt7/C06.prompt.txt').read()))
+    open('/tmp/wt8/%s.prompt.txt'%pid,'w').write(base.replace('{WT}','/tmp/wt8/'+pid).replace('{PROPERTY}',json.dumps(prop,ensure_ascii=False,indent=1)).replace('{USED}','\n'.join(used)))
+print(len(open('/tmp/wt8/C06.prompt.txt').read()))
